@@ -192,6 +192,21 @@ func (env *Env) eval(x Expr) Val {
 			return env.deref(v)
 		}
 	case *EField:
+		if id, ok := n.X.(*EIdent); ok && env.pkg != nil {
+			if _, isVar := env.vars[id.Name]; !isVar {
+				for _, imp := range env.pkg.Imports() {
+					if imp.Name() == id.Name {
+						if c, ok := imp.Scope().Lookup(n.Name).(*types.Const); ok {
+							ty := c.Type()
+							if b, ok := ty.Underlying().(*types.Basic); ok && b.Info()&types.IsUntyped != 0 {
+								ty = types.Default(ty)
+							}
+							return env.e.constVal(ssa.NewConst(c.Val(), ty))
+						}
+					}
+				}
+			}
+		}
 		v := env.eval(n.X)
 		if v.Tup != nil {
 			var k int
